@@ -3,7 +3,7 @@
 // ASSUME: plain accesses (the OneWayBarrier counters) are glued to the preceding scheduling point - they are meant to be protected by the mutex; an access outside the mutex is therefore atomic with its neighbours here (SimpleBarrier's unlocked reinit() is such an access)
 // ASSUME: CBMC's per-dereference pointer checks are off in this unit (checks=min)
 // ASSUME: values follow SC interleavings
-// OB: ob_simple_T2 tier=quick unwind=90 timeout=2400 solver=cadical bounds="SimpleBarrier (two OneWayBarriers over mutex/condition variable): T=2 x 2 phases, 70 steps" desc="no thread leaves its k-th wait before all entered it; all return; no deadlock"
+// OB: ob_simple_T2 tier=quick unwind=90 timeout=2400 solver=cadical mem_gb=12 cbmc="--max-field-sensitivity-array-size 300" bounds="SimpleBarrier (two OneWayBarriers over mutex/condition variable): T=2 x 1 phase (one wait() = two one-way barriers), 40 steps" desc="no thread leaves its k-th wait before all entered it; all return; no deadlock"
 #include "vf.h"
 #include "vf_nodie.h"
 #include <condition_variable>
@@ -25,7 +25,7 @@ SimpleBarrier* vfg_sb;
 } // namespace
 extern "C" void vf_tinit_simple(unsigned tid) { galois::substrate::ThreadPool::my_box.topo.tid = tid; }
 extern "C" void vf_thread_simple(unsigned tid) {
-  for (unsigned k = 1; k <= 2; ++k) {
+  for (unsigned k = 1; k <= 1; ++k) {
     vfg_phase[tid] = k;
     vfg_sb->SimpleBarrier::wait();
     for (unsigned u = 0; u < vfg_n; ++u)
@@ -35,6 +35,6 @@ extern "C" void vf_thread_simple(unsigned tid) {
 OB(simple_T2) {
   vfg_sb = new SimpleBarrier(2);
   vfg_n  = 2;
-  vf_sched_simple(2, 70);
-  for (unsigned u = 0; u < 2; ++u) VF_CHECKM(vfg_phase[u] == 2, "every participant completed all phases");
+  vf_sched_simple(2, 40);
+  for (unsigned u = 0; u < 2; ++u) VF_CHECKM(vfg_phase[u] == 1, "every participant completed the phase");
 }
